@@ -17,6 +17,12 @@ Proof. vm_compute. reflexivity. Qed.
    still calls the same names in the same order: the delegation structure the operations of Exec.v were read from *)
 Theorem C01_source_wrappers : wrappers = expected_wrappers.
 Proof. vm_compute. reflexivity. Qed.
+(* and the pointer arithmetic: every memory-moving / sizing call of the hand-modelled functions (copy, copy_nonoverlapping,
+   copy_from_slice, set_len, write, realloc, alloc, dealloc, with_*, amortized_growth, ptr.add, range indexing) has the same
+   argument text, and the bindings those arguments mention the same right-hand sides, as when the model's offsets and
+   lengths (Impl.v: write_at / move_at / set_len arguments) were read from them *)
+Theorem C01_source_mem_sites : mem_sites = expected_mem_sites.
+Proof. vm_compute. reflexivity. Qed.
 
 (* one step: well-formedness is preserved, nothing undefined is reached, statics are untouched, other slots are
    untouched, and unless the step reports an allocation failure the texts and the returned value are Spec's *)
@@ -66,6 +72,7 @@ Qed.
 Print Assumptions C01_gen_ok.
 Print Assumptions C01_source_skeleton.
 Print Assumptions C01_source_wrappers.
+Print Assumptions C01_source_mem_sites.
 Print Assumptions C01_step.
 Print Assumptions C01_histories.
 Print Assumptions C01_read.
